@@ -8,6 +8,9 @@ import FoxModel.Driver.Logger
 import FoxModel.Driver.Txn
 import FoxModel.Driver.Hist
 import FoxModel.Driver.Parked
+import FoxModel.Driver.Mw
+import FoxModel.Driver.Opts
+import FoxModel.Driver.Ctx
 /-
   foxmodel — line-protocol driver: one case per input line (tab separated, first field = stream name),
   one output line per case. Core Lean only (links without Mathlib).
@@ -29,6 +32,9 @@ def dispatch (line : String) : String :=
   | some "chist" => Driver.Hist.handleHist fields
   | some "conc" => Driver.Hist.handleConc fields
   | some "parked" => Driver.Parked.handle fields
+  | some "mw" => Driver.Mw.handle fields
+  | some "opts" => Driver.Opts.handle fields
+  | some "ctx" => Driver.Ctx.handle fields
   | some "hist" => Driver.Ops.handle (fields.take 2)
   | _ => "M=unknown-stream"
 
